@@ -19,9 +19,17 @@ import (
 // pendingRewards measures, per validator, what x/distribution would pay the module
 // account right now — by withdrawing on a throw-away branch.
 func pendingRewards(w *World, ctx sdk.Context) []sdk.Coins {
+	return pendingRewardsOf(w, ctx, nil)
+}
+
+// pendingRewardsOf measures only the validators selected by want (nil: all).
+func pendingRewardsOf(w *World, ctx sdk.Context, want func(v int) bool) []sdk.Coins {
 	out := make([]sdk.Coins, len(w.Vals))
 	for i, v := range w.Vals {
 		out[i] = sdk.NewCoins()
+		if want != nil && !want(i) {
+			continue
+		}
 		if _, err := w.App.StakingKeeper.GetDelegation(ctx, w.ModuleAddr, v); err != nil {
 			continue
 		}
@@ -592,7 +600,10 @@ type OracleC12 struct {
 }
 
 // EndOfBlock: pending rewards at the block boundary (after the end-blockers, before the allocation).
-func (o *OracleC12) EndOfBlock(x *Exec) { o.eobPend = pendingRewards(x.W, x.Ctx) }
+func (o *OracleC12) EndOfBlock(x *Exec) {
+	pre := x.Pre()
+	o.eobPend = pendingRewardsOf(x.W, x.Ctx, func(v int) bool { return noDelegatorShares(&pre.Vals[v]) })
+}
 
 func noDelegatorShares(v *ValSnap) bool {
 	for _, sh := range v.DelShares {
@@ -611,7 +622,8 @@ func (o *OracleC12) trackOwnerless(x *Exec, op *Op, res *Res) {
 	}
 	after := o.eobPend
 	if op.K != KBlock {
-		after = pendingRewards(x.W, x.Ctx)
+		p0 := x.Pre()
+		after = pendingRewardsOf(x.W, x.Ctx, func(v int) bool { return noDelegatorShares(&p0.Vals[v]) })
 	}
 	if after == nil || (op.K == KBlock && (res.AllianceEBErr != "" || res.StakingEBErr != "")) {
 		return
@@ -676,7 +688,8 @@ func unclaimedRewards(w *World, ctx sdk.Context, s *Snap) bool {
 
 func (*OracleC12) Name() string { return "C12" }
 func (o *OracleC12) Before(x *Exec, op *Op) {
-	o.prePend = pendingRewards(x.W, x.Ctx)
+	p0 := x.Pre()
+	o.prePend = pendingRewardsOf(x.W, x.Ctx, func(v int) bool { return noDelegatorShares(&p0.Vals[v]) })
 	if (op.K == KSlash || op.K == KSlashHook) && !o.tainted && unclaimedRewards(x.W, x.Ctx, x.Pre()) {
 		o.pendingTaint = true
 	}
@@ -770,10 +783,8 @@ func (o *OracleC12) After(x *Exec, op *Op, res *Res) {
 	c, _ := x.Ctx.CacheContext()
 	// what the settle loop below moves into the pool for validators without delegator shares
 	ownerlessNow := sdk.NewCoins()
-	for v, pc := range pendingRewards(w, c) {
-		if noDelegatorShares(&s.Vals[v]) {
-			ownerlessNow = ownerlessNow.Add(pc...)
-		}
+	for _, pc := range pendingRewardsOf(w, c, func(v int) bool { return noDelegatorShares(&s.Vals[v]) }) {
+		ownerlessNow = ownerlessNow.Add(pc...)
 	}
 	// settle every validator's pending rewards first (what each claim would do anyway), so
 	// that the indices the claims will use are observable for the rounding allowance
